@@ -173,6 +173,28 @@ impl<'tcx> Cx<'tcx> {
                 o.set("int", J::Int(int_of(raw, true)));
                 Some(o)
             }
+            ty::Adt(adt, _) if adt.is_enum() && adt.variants().iter().all(|v| v.fields.is_empty()) && size > 0 && size <= 8 => {
+                // a field-less enum (a byte class, a syntax selector): the variant whose discriminant is stored
+                let tag = int_of(raw, false) as u128;
+                let mut hit: Option<(usize, String)> = None;
+                for (vi, d) in adt.discriminants(tcx) {
+                    let mask: u128 = if size >= 16 { u128::MAX } else { (1u128 << (8 * size)) - 1 };
+                    if (d.val & mask) == tag {
+                        hit = Some((vi.as_usize(), adt.variant(vi).name.to_string()));
+                    }
+                }
+                let (vi, name) = hit?;
+                let mut o = J::obj();
+                o.set("enum", J::s(path_str(tcx, adt.did())));
+                o.set("variant", J::Int(vi as i128));
+                o.set("vname", J::s(name));
+                Some(o)
+            }
+            ty::Adt(adt, args) if adt.is_struct() && adt.all_fields().count() == 1 => {
+                // a newtype: the value inside
+                let f = adt.non_enum_variant().fields.iter().next().unwrap();
+                self.decode_value(alloc, off + layout.fields.offset(0).bytes_usize(), f.ty(tcx, args), depth + 1)
+            }
             ty::Array(elem, _) => {
                 let el = tcx.layout_of(env.as_query_input(*elem)).ok()?;
                 let es = el.size.bytes_usize();
@@ -236,7 +258,9 @@ impl<'tcx> Cx<'tcx> {
         if let Ok(alloc) = tcx.eval_static_initializer(did) {
             let a = alloc.inner();
             let len = a.len();
-            if !a.provenance().ptrs().is_empty() || matches!(ty.kind(), ty::Array(t, _) if matches!(t.kind(), ty::Tuple(_))) {
+            if !a.provenance().ptrs().is_empty()
+                || matches!(ty.kind(), ty::Array(t, _) if matches!(t.kind(), ty::Tuple(_) | ty::Adt(..)))
+            {
                 if let Some(v) = self.decode_value(a, 0, ty, 0) {
                     o.set("value", v);
                 }
